@@ -31,13 +31,15 @@ CONSTANTS Addrs, MaxSer, Mode, Variant, GcAtomic,
 VARIABLES obj,     \* obj[a]: the object at address a, or Free
           cache,   \* cache[key] = [tgt, ser, alive]: the weak reference stored under key
           nser,    \* objects created so far
+          win,     \* address of the object whose ctypedescr_dealloc is between PyObject_ClearWeakRefs()
+                   \* and remove_dead_unique_reference() (0: none): user weakref callbacks run there
           ev       \* the last event, as the ideal reads it
-vars == <<live, obj, cache, nser, ev>>
-View == <<live, obj, cache, nser>>
+vars == <<live, obj, cache, nser, win, ev>>
+View == <<live, obj, cache, nser, win>>
 
 Free == [st |-> "free"]
 NoEv == [op |-> "init", s |-> 0, d |-> <<>>, req |-> <<>>, agg |-> FALSE]
-Init == IInit /\ obj = [a \in Addrs |-> Free] /\ cache = Empty /\ nser = 0 /\ ev = NoEv
+Init == IInit /\ obj = [a \in Addrs |-> Free] /\ cache = Empty /\ nser = 0 /\ win = 0 /\ ev = NoEv
 
 Alloc(a) == obj[a].st # "free"
 Comps(a) == obj[a].comps                      \* addresses of the component objects
@@ -58,6 +60,11 @@ Referrers(a) == {b \in Addrs : Alloc(b) /\ HoldsComps(b) /\ \E i \in DOMAIN Comp
 Unreferenced(a) == /\ ~obj[a].held /\ ~obj[a].cyc /\ Referrers(a) = {}
                    /\ ~\E k \in DOMAIN cache : KeyMentions(k, a)
 
+\* an object nothing holds any more: reference counting frees it at once.  With GcAtomic (the
+\* single-threaded program of the replay) nothing else happens before that.
+Pending == \E a \in Addrs : Alloc(a) /\ obj[a].st = "live" /\ Unreferenced(a)
+Quiet == GcAtomic => ~Pending
+
 Del(f, k) == [x \in DOMAIN f \ {k} |-> f[x]]
 Put(f, k, v) == [x \in DOMAIN f \cup {k} |-> IF x = k THEN v ELSE f[x]]
 \* PyObject_ClearWeakRefs / handle_weakrefs: the weak references to the object at a die;
@@ -77,6 +84,9 @@ Event(op, s, d, req) == ev' = [op |-> op, s |-> s, d |-> d, req |-> req, agg |->
 \* new_primitive_type / new_pointer_type / new_array_type / new_function_type -> get_unique_type;
 \* the components are objects the program holds
 Request(kind, comps, n) ==
+    /\ (win # 0 => obj[win].st = "wrdead")        \* inside a dealloc: only from a weakref callback
+    /\ Quiet
+    /\ UNCHANGED win
     /\ \A i \in DOMAIN comps : Alloc(comps[i]) /\ obj[comps[i]].st = "live" /\ obj[comps[i]].held
     /\ LET k == Key(kind, comps, n)
            d == Descr(kind, comps, n)
@@ -103,38 +113,59 @@ ReqArr(a) == a \in Held /\ obj[a].kind = "ptr" /\ Request("arr", <<a>>, 2)
 ReqFn(a, b) == a \in Held /\ b \in Held /\ Request("fn", <<a, b>>, 0)
 
 \* ------------------------------------------------------------------ the program drops references
-DropRef(a) == /\ a \in Held /\ obj' = [obj EXCEPT ![a].held = FALSE] /\ UNCHANGED <<live, cache, nser, ev>>
+DropRef(a) == /\ win = 0 /\ Quiet /\ a \in Held /\ obj' = [obj EXCEPT ![a].held = FALSE]
+              /\ UNCHANGED <<live, cache, nser, win, ev>>
 \* ... to an object that is part of a reference cycle (only the collector can reclaim it)
-CycDrop(a) == /\ a \in Held /\ obj' = [obj EXCEPT ![a].held = FALSE, ![a].cyc = TRUE]
-              /\ UNCHANGED <<live, cache, nser, ev>>
+CycDrop(a) == /\ win = 0 /\ Quiet /\ a \in Held /\ obj' = [obj EXCEPT ![a].held = FALSE, ![a].cyc = TRUE]
+              /\ UNCHANGED <<live, cache, nser, win, ev>>
 
 \* ------------------------------------------------------------------ death
 DeallocRC(a) ==          \* ctypedescr_dealloc by reference counting
-    /\ Alloc(a) /\ obj[a].st = "live" /\ Unreferenced(a)
+    /\ win = 0 /\ Alloc(a) /\ obj[a].st = "live" /\ Unreferenced(a)
     /\ cache' = RemoveDead(ClearWr(cache, a), a)
     /\ obj' = [obj EXCEPT ![a] = Free]
-    /\ Event("dead", SerOf(a), <<>>, <<>>) /\ UNCHANGED nser
+    /\ Event("dead", SerOf(a), <<>>, <<>>) /\ UNCHANGED <<nser, win>>
+
+\* The same death with the window made visible: the program drops its last reference to an object
+\* on which it has registered a weak reference *with a callback*; the callback runs inside
+\* PyObject_ClearWeakRefs(), i.e. after the cache's weak reference died and before
+\* remove_dead_unique_reference(); it may make any request and keep the result.
+DropCb(a) ==             \* del x   (x has a weakref callback; nothing else holds it)
+    /\ win = 0 /\ Quiet /\ a \in Held /\ ~obj[a].cyc /\ Referrers(a) = {}
+    /\ ~\E k \in DOMAIN cache : KeyMentions(k, a)
+    /\ obj' = [obj EXCEPT ![a].held = FALSE] /\ win' = a
+    /\ UNCHANGED <<live, cache, nser, ev>>
+WinWr(a) ==              \* PyObject_ClearWeakRefs(ct): the callbacks start
+    /\ win = a /\ a # 0 /\ obj[a].st = "live"
+    /\ cache' = ClearWr(cache, a)
+    /\ obj' = [obj EXCEPT ![a].st = "wrdead"]
+    /\ Event("dead", SerOf(a), <<>>, <<>>) /\ UNCHANGED <<nser, win>>
+WinClose(a) ==           \* the callbacks are done: remove_dead_unique_reference(); free
+    /\ win = a /\ a # 0 /\ obj[a].st = "wrdead"
+    /\ cache' = RemoveDead(cache, a)
+    /\ obj' = [obj EXCEPT ![a] = Free] /\ win' = 0
+    /\ UNCHANGED <<live, nser, ev>>
 
 Garbage(a) == Alloc(a) /\ obj[a].cyc /\ ~obj[a].held
 GcWr(a) ==               \* handle_weakrefs
-    /\ ~GcAtomic /\ Garbage(a) /\ obj[a].st = "live"
+    /\ win = 0 /\ ~GcAtomic /\ Garbage(a) /\ obj[a].st = "live"
     /\ cache' = ClearWr(cache, a)
     /\ obj' = [obj EXCEPT ![a].st = "wrdead"]
-    /\ Event("dead", SerOf(a), <<>>, <<>>) /\ UNCHANGED nser
+    /\ Event("dead", SerOf(a), <<>>, <<>>) /\ UNCHANGED <<nser, win>>
 GcClear(a) ==            \* ctypedescr_clear
-    /\ ~GcAtomic /\ Alloc(a) /\ obj[a].st = "wrdead"
+    /\ win = 0 /\ ~GcAtomic /\ Alloc(a) /\ obj[a].st = "wrdead"
     /\ obj' = [obj EXCEPT ![a].st = "cleared"]
-    /\ UNCHANGED <<live, cache, nser, ev>>
+    /\ UNCHANGED <<live, cache, nser, win, ev>>
 GcDealloc(a) ==          \* ctypedescr_dealloc of a collected object
-    /\ ~GcAtomic /\ Alloc(a) /\ obj[a].st \in {"wrdead", "cleared"} /\ Referrers(a) = {}
+    /\ win = 0 /\ ~GcAtomic /\ Alloc(a) /\ obj[a].st \in {"wrdead", "cleared"} /\ Referrers(a) = {}
     /\ cache' = RemoveDead(cache, a)
     /\ obj' = [obj EXCEPT ![a] = Free]
-    /\ UNCHANGED <<live, nser, ev>>
+    /\ UNCHANGED <<live, nser, win, ev>>
 GcOne(a) ==              \* gc.collect() reclaiming the cyclic garbage object a in one step
-    /\ GcAtomic /\ Garbage(a) /\ obj[a].st = "live" /\ Referrers(a) = {}
+    /\ win = 0 /\ GcAtomic /\ Garbage(a) /\ obj[a].st = "live" /\ Referrers(a) = {}
     /\ cache' = RemoveDead(ClearWr(cache, a), a)
     /\ obj' = [obj EXCEPT ![a] = Free]
-    /\ Event("dead", SerOf(a), <<>>, <<>>) /\ UNCHANGED nser
+    /\ Event("dead", SerOf(a), <<>>, <<>>) /\ UNCHANGED <<nser, win>>
 
 \* the same operations addressed by object number (what a program and the replayer know)
 Sers == 1..MaxSer
@@ -150,6 +181,9 @@ SGcWr(s) == Has(s) /\ GcWr(A(s))
 SGcClear(s) == Has(s) /\ GcClear(A(s))
 SGcDealloc(s) == Has(s) /\ GcDealloc(A(s))
 SGcOne(s) == Has(s) /\ GcOne(A(s))
+SDropCb(s) == Has(s) /\ DropCb(A(s))
+SWinWr(s) == Has(s) /\ WinWr(A(s))
+SWinClose(s) == Has(s) /\ WinClose(A(s))
 
 Next == \/ \E n \in Prims : ReqPrim(n)
         \/ \E s \in Sers : SReqPtr(s)
@@ -162,6 +196,9 @@ Next == \/ \E n \in Prims : ReqPrim(n)
         \/ \E s \in Sers : SGcClear(s)
         \/ \E s \in Sers : SGcDealloc(s)
         \/ \E s \in Sers : SGcOne(s)
+        \/ \E s \in Sers : SDropCb(s)
+        \/ \E s \in Sers : SWinWr(s)
+        \/ \E s \in Sers : SWinClose(s)
 Spec == Init /\ [][Next]_vars
 
 \* ------------------------------------------------------------------ properties
